@@ -65,6 +65,17 @@ CHECKS = {
              "for vectors over ONE common alignment; that the verdict does not depend on which alignment (pairwise vs "
              "three-way, extra zero terms, extra names) is validated by the triple tests on /repo, not yet by a theorem. "
              "'== implies identical' is proved; the converse needs monomial independence (planned). Complex/NaN excluded."),
+    "C19": dict(
+        technique="Coq proof: last-write-wins over the glexsort enumeration (leading terms), constants and decompose "
+                  "refine {mpoly R[n]}; vm_compute correspondence with /repo; harness-side relations for the sort proxy",
+        text="Theorems (Props/P_C19.v): lead_exponent/lead_coefficient return, per element, the stored term with "
+             "non-zero coefficient that is largest in the selected monomial order (zeros for the zero polynomial); a "
+             "constant array denotes constants and tonumpy returns them, non-constants give FeatureNotSupported; "
+             "decompose has one monomial per slice and the slices sum to the input.",
+        note="Trusted: Coq kernel+VM, MathComp/SsrMultinomials. Partial: set_dimensions is modelled and run against /repo "
+             "but has no theorem yet; sortable_proxy/argmax/argmin/amax/amin are checked as relations on /repo's output "
+             "(permutation, monotone in (leading exponent, leading coefficient), extreme element) by the harness, not "
+             "proved; todict is compared term by term. Integer coefficients."),
 }
 
 
